@@ -29,6 +29,7 @@ from eliot import start_action, start_task, log_message, current_action, preserv
 from eliot.parse import Parser
 
 ID = "C05"
+CASE_TIMEOUT = 3600  # one case is a whole schedule exploration
 LEVEL = "model_checking"
 DETERMINISM_REPLAY = False  # engines verify replay of prefixes themselves
 RULE = (
